@@ -600,7 +600,12 @@ func (x *TopicsIndex) scanSubscribers(topic string, d int, n *particle, subs *Su
 	}
 
 	key, hasNext := isolateParticle(topic, d)
+	dollar := d == 0 && topic[0] == '$' // top-level wildcards do not match topics beginning with $ [MQTT-4.7.2-1]
 	for _, partKey := range []string{key, "+"} {
+		if dollar && partKey == "+" {
+			continue
+		}
+
 		if particle := n.particles.get(partKey); particle != nil { // [MQTT-3.3.2-3]
 			if hasNext {
 				x.scanSubscribers(topic, d+1, particle, subs)
@@ -618,7 +623,7 @@ func (x *TopicsIndex) scanSubscribers(topic string, d int, n *particle, subs *Su
 		}
 	}
 
-	if particle := n.particles.get("#"); particle != nil {
+	if particle := n.particles.get("#"); particle != nil && !dollar {
 		x.gatherSubscriptions(topic, particle, subs)
 		x.gatherSharedSubscriptions(particle, subs)
 		x.gatherInlineSubscriptions(particle, subs)
